@@ -144,7 +144,8 @@ def handle_trace_string_global(parser, events):
     str_id = 0
     vstr = b''
     lookup_events = []
-    for event in events:
+    # Other kernel trace records of the same thread may lie between the records of one string.
+    for event in [e for e in events if e.eventid == events[0].eventid]:
         lookup_events.append(event)
         if event.func_qualifier & DgbFuncQual.DBG_FUNC_START.value:
             debugid = event.values[0]
@@ -183,14 +184,14 @@ def handle_trace_string_proc_exit(parser, events):
 
 
 def handle_trace_string_threadname(parser, events):
-    name = b''.join([e.data for e in events]).replace(b'\x00', b'').decode()
+    name = b''.join([e.data for e in events if e.eventid == events[0].eventid]).replace(b'\x00', b'').decode()
     event = TraceStringThreadname(events, name)
     parser.tids_names[events[0].tid] = event.name
     return event
 
 
 def handle_trace_string_threadname_prev(parser, events):
-    name = b''.join([e.data for e in events]).replace(b'\x00', b'').decode()
+    name = b''.join([e.data for e in events if e.eventid == events[0].eventid]).replace(b'\x00', b'').decode()
     event = TraceStringThreadnamePrev(events, name)
     parser.tids_names[events[0].tid] = event.name
     return event
